@@ -547,7 +547,7 @@ int main(int argc, char** argv) {
       m.msg_iov = &iv; m.msg_iovlen = 1; m.msg_control = cb; m.msg_controllen = CMSG_SPACE(nf * sizeof(int));
       struct cmsghdr* c = CMSG_FIRSTHDR(&m); c->cmsg_level = SOL_SOCKET; c->cmsg_type = SCM_RIGHTS; c->cmsg_len = CMSG_LEN(nf * sizeof(int));
       memcpy(CMSG_DATA(c), fds, nf * sizeof(int));
-      long sr = RAW(SYS_sendmsg, k, &m, 0);
+      long sr = RAW(SYS_sendmsg, k, &m, MSG_NOSIGNAL);
       for (int j = 0; j < nf; j++) raw6(SYS_close, fds[j], 0, 0, 0, 0, 0);
       outf("ret %s", sr == 1 ? "0" : "E");
     } else if (!strcmp(op, "spawn") && nw >= 5) {
